@@ -161,9 +161,13 @@ func Parse(s string) (*DPoP, error) {
 	}
 	if v, ok := token.Get(HTUKey); !ok || v == "" {
 		return nil, fmt.Errorf("%w: missing htu claim", ErrInvalidDPoP)
+	} else if _, isString := v.(string); !isString {
+		return nil, fmt.Errorf("%w: htu claim is not a string", ErrInvalidDPoP)
 	}
 	if v, ok := token.Get(HTMKey); !ok || v == "" {
 		return nil, fmt.Errorf("%w: missing htm claim", ErrInvalidDPoP)
+	} else if _, isString := v.(string); !isString {
+		return nil, fmt.Errorf("%w: htm claim is not a string", ErrInvalidDPoP)
 	}
 	if token.JwtID() == "" {
 		return nil, fmt.Errorf("%w: missing jti claim", ErrInvalidDPoP)
@@ -195,7 +199,9 @@ func jwkIsPrivateKey(jwk jwk.Key) bool {
 // HTU returns the htu claim of the DPoP token
 func (t DPoP) HTU() string {
 	if v, ok := t.Token.Get(HTUKey); ok {
-		return v.(string)
+		if s, isString := v.(string); isString {
+			return s
+		}
 	}
 	return ""
 }
@@ -203,7 +209,9 @@ func (t DPoP) HTU() string {
 // HTM returns the htm claim of the DPoP token
 func (t DPoP) HTM() string {
 	if v, ok := t.Token.Get(HTMKey); ok {
-		return v.(string)
+		if s, isString := v.(string); isString {
+			return s
+		}
 	}
 	return ""
 }
@@ -223,8 +231,14 @@ func (t DPoP) Match(jkt string, method string, url string) (bool, error) {
 	if method != t.HTM() {
 		return false, fmt.Errorf("method mismatch, token: %s, given: %s", t.HTM(), method)
 	}
-	urlLeft := strip(t.HTU())
-	urlRight := strip(url)
+	urlLeft, err := strip(t.HTU())
+	if err != nil {
+		return false, fmt.Errorf("invalid htu: %w", err)
+	}
+	urlRight, err := strip(url)
+	if err != nil {
+		return false, fmt.Errorf("invalid url: %w", err)
+	}
 	if urlLeft != urlRight {
 		return false, fmt.Errorf("url mismatch, token: %s, given: %s", urlLeft, urlRight)
 	}
@@ -232,13 +246,16 @@ func (t DPoP) Match(jkt string, method string, url string) (bool, error) {
 	return true, nil
 }
 
-func strip(raw string) string {
-	url, _ := url.Parse(raw)
+func strip(raw string) (string, error) {
+	url, err := url.Parse(raw)
+	if err != nil {
+		return "", err
+	}
 	url.Scheme = "https"
 	url.Host = strings.Split(url.Host, ":")[0]
 	url.RawQuery = ""
 	url.Fragment = ""
-	return url.String()
+	return url.String(), nil
 }
 
 func (t DPoP) MarshalJSON() ([]byte, error) {
